@@ -154,7 +154,7 @@ contract("qubovert.utils._dict_arithmetic:DictArithmetic.__ipow__#err", props=["
 
 # ---------------------------------------------------------------------------------- copying wrappers
 def _wrap(name, instances, ens, extra_req=()):
-    contract("qubovert.utils._dict_arithmetic:DictArithmetic." + name, props=["C05"],
+    contract("qubovert.utils._dict_arithmetic:DictArithmetic." + name, props=["C05", "C19"],
              instances=instances,
              requires=["wf(self)"] + list(extra_req),
              returns=lambda env, eng: "fresh:model:" + env["self"].cls.name,
